@@ -9,6 +9,8 @@ namespace OpcuaVerif.SubM
 structure DState where
   ss : Sess
   maxQ : Nat
+  sentKeys : List (Nat × Nat)       -- ghost for the arm tags: keys ever seen in a response
+  ackedKeys : List (Nat × Nat)      -- ghost: keys named in acknowledgements of accepted requests
 
 /-- the source variant the drivers follow = the integrated repository (all four fixes merged) -/
 def current : Cfg := { keepOnNone := true, fix15 := true, expiredDiscards := true, prioDesc := true }
@@ -80,48 +82,335 @@ def mkNodes : Nat → List (Nat × Nat)
   | 0 => []
   | n + 1 => mkNodes n ++ [(n + 1, 0)]
 
-def finish (d : DState) (ss : Sess) (txt : String) : DState × String :=
+/-! ### arm tags: which branches of the model an op took (GUIDE "Arm coverage").
+The trace functions call the same primitives as the model (`elapsedStep`, `collectStep`, `updateState`,
+`itemTick`, `pairUp`, …) and only observe them; the state transition itself is always the model's. -/
+
+def itemArms (nodes : List (Nat × Nat)) (now : Nat) (elapsed resend : Bool) (it : MItem) : List String :=
+  let mode := match it.mode with
+    | .disabled => "im-disabled" | .sampling => "im-sampling" | .reporting => "im-reporting"
+  if it.mode = .disabled then [mode] else
+  let (chk, ctag) : Bool × String :=
+    if resend then (true, "ic-resend")
+    else match it.sampling with
+      | none => (elapsed, if elapsed then "ic-interval-elapsed" else "ic-interval-not")
+      | some k => match it.lastSample with
+        | none => (true, "ic-own-first")
+        | some t => if now - t = k then (true, "ic-own-eq") else if now - t > k then (true, "ic-own-gt")
+                    else (false, "ic-own-lt")
+  if !chk then [mode, ctag] else
+  let vtag :=
+    match lookup nodes it.node with
+    | none => ["iv-node-missing"]
+    | some v =>
+      let changed := resend || (match it.last with | none => true | some l => decide (v ≠ l))
+      let q := if changed then
+          (if it.q.queue.length = it.q.size then
+            (if it.q.size ≤ 1 then "iq-overflow-size1"
+             else if it.q.discardOldest then "iq-overflow-oldest" else "iq-overflow-newest")
+           else if it.q.queue.length + 1 = it.q.size then "iq-fills" else "iq-room")
+        else (if it.q.queue.isEmpty then "iv-unchanged" else "iv-leftover")
+      [if it.last.isNone then "iv-first" else if changed then "iv-changed" else "iv-same", q]
+  let r := (itemTick nodes now elapsed resend it).2
+  let dtag := match r with
+    | .report => if elapsed then "id-drained" else "id-held"
+    | .valueChanged => "id-sampling-only"
+    | .noChange => "id-nochange"
+  [mode, ctag, dtag] ++ vtag
+
+def triggerArms (ids : List Nat) (items : List MItem) : List String :=
+  ids.map fun i => match items.find? (fun it => it.id = i) with
+    | none => "tg-missing-skip"
+    | some it => match it.mode with
+      | .sampling => "tg-sampling-resent"
+      | .reporting => "tg-reporting-skip"
+      | .disabled => "tg-disabled-skip"
+
+def rowArms (c : Cfg) (s : Subn) (rpr : Bool) (p : Params) : List String :=
+  let (s', row, a) := updateState c s rpr p
+  let dis := !s.enabled
+  let v : String :=
+    match row with
+    | 0 => "r0-" ++ (match s.state with
+        | .normal => "normal" | .late => "late" | .keepAlive => "keepalive" | .closed => "closed" | .creating => "creating")
+    | 4 => if dis then "r4-disabled" else "r4-nomore"
+    | 7 => if dis then "r7-disabled" else "r7-noavail"
+    | 8 => if !s.firstSent then "r8-first" else "r8-data"
+    | 9 => if dis then "r9-disabled" else "r9-noavail"
+    | 11 => if dis then "r11-disabled" else "r11-empty"
+    | 15 => if dis then "r15-disabled" else "r15-noavail"
+    | 16 => if dis then "r16-disabled" else "r16-noavail"
+    | 17 => if s.ka = 1 then "r17-ka1" else "r17-data"
+    | n => s!"r{n}"
+  let lifeTag := if s.state = .normal ∨ s.state = .late ∨ s.state = .keepAlive then
+      (if s.life = 2 ∧ s'.life = 1 then ["life-2-to-1"] else []) else []
+  let _ := a
+  [v] ++ lifeTag
+
+def handleArms (c : Cfg) (s : Subn) (a : Action) (n : Option Msg) : String :=
+  match a, n with
+  | .none, some _ => if c.keepOnNone ∧ s.enabled then "h-none-keep" else "h-none-discard"
+  | .none, none => "h-none-nodata"
+  | .keepAlive, some _ => "h-ka-data"
+  | .keepAlive, none => "h-ka"
+  | .notifications, some _ => "h-notif-data"
+  | .notifications, none => "h-notif-queue"
+  | .created, _ => "h-created"
+  | .expired, some _ => "h-expired-data"
+  | .expired, none => "h-expired"
+
+/-- arms of one `Subscription::tick` -/
+def subArms (c : Cfg) (nodes : List (Nat × Nat)) (now : Nat) (timerTick rq : Bool) (s : Subn) : List String :=
+  let el : String :=
+    if !timerTick then "el-rpr" else if s.state = .creating then "el-creating"
+    else match s.lastElapsed with
+      | none => "el-first"
+      | some t => if now - t = s.interval then "el-eq" else if now - t > s.interval then "el-gt" else "el-lt"
+  let (s1, elapsed) := elapsedStep now timerTick s
+  let items : List String :=
+    if s1.state = .closed ∨ s1.state = .creating then []
+    else
+      (s1.items.map (itemArms nodes now elapsed s1.resend)).flatten ++
+      triggerArms (triggeredBy nodes now elapsed s1.resend s1.items) s1.items ++
+      (if s1.resend then ["resend-consumed"] else [])
+  let (s2, n) := collectStep nodes now elapsed s1
+  let avail := !s2.notifs.isEmpty || n.isSome
+  let more := decide (s2.notifs.length > 1)
+  let rest : List String :=
+    if avail || elapsed || rq then
+      let p : Params := { avail := avail, more := more, reqQueued := rq, timer := elapsed }
+      let (s3, _, a) := updateState c s2 (!timerTick) p
+      rowArms c s2 (!timerTick) p ++ [handleArms c s3 a n]
+    else ["st-idle"]
+  [el] ++ items ++ rest
+
+def visitTrace (c : Cfg) (timerTick : Bool) : List Nat → Sess → List (Nat × Req × Msg) → List String →
+    Sess × List (Nat × Req × Msg) × List String
+  | [], ss, trans, tags => (ss, trans, tags)
+  | id :: ids, ss, trans, tags =>
+    match getSub ss.subs id with
+    | none => (ss, trans, tags)
+    | some s =>
+      let t1 := subArms c ss.nodes ss.now timerTick (!ss.reqs.isEmpty) s
+      match subTick c ss.nodes ss.now timerTick (!ss.reqs.isEmpty) s with
+      | .panic => (ss, trans, tags ++ t1 ++ ["panic"])
+      | .ok s1 =>
+        let (reqs, ms, trans') := pairUp id ss.reqs s1.notifs trans
+        let k := trans'.length - trans.length
+        let ptag := (if k = 0 then "pair0" else if k = 1 then "pair1" else "pair2+") ::
+          ((if !ms.isEmpty ∧ reqs.isEmpty ∧ k > 0 then ["pair-requests-exhausted"] else []) ++
+           (if !ms.isEmpty ∧ k = 0 then ["pair-no-request"] else []))
+        let s2 := { s1 with notifs := ms }
+        let removed := decide (s2.state = .closed ∧ s2.notifs.isEmpty)
+        let subs := if removed then ss.subs.filter (fun t => t.id ≠ id) else updSub ss.subs s2
+        visitTrace c timerTick ids { ss with reqs := reqs, subs := subs } trans'
+          (tags ++ t1 ++ ptag ++ (if removed then ["v-removed"] else []))
+
+def transmitArms : List (Nat × Req × Msg) → Sess → List String
+  | [], _ => []
+  | (sid, _, m) :: rest, ss =>
+    let more := rest.any (fun e => e.1 = sid)
+    let av := availSeqs ss.retrans sid
+    [if more then "tx-more" else "tx-last", if av.isSome then "av-some" else "av-none",
+      (match m.body with | .keepAlive => "tx-keepalive" | .status _ => "tx-status" | .data _ => "tx-data")] ++
+    transmitArms rest { ss with retrans := insertKey (sid, m.seq) m ss.retrans }
+
+def cleanupArms (subs : List Subn) (retrans : List ((Nat × Nat) × Msg)) : List String :=
+  let r := retrans.filter (fun e => hasSub subs e.1.1)
+  let max := subs.length * 2 * 2
+  (if r.length < retrans.length then ["cl-dead-purge"] else []) ++
+  [if r.length > max then "cl-evict" else if r.length = max ∧ max > 0 then "cl-at-limit" else "cl-under"]
+
+def tickArms (c : Cfg) (timerTick : Bool) (ss : Sess) : List String :=
+  let order := visitOrder c ss.subs
+  let ids := ss.subs.map (·.id)
+  let vo := (if order ≠ ids then ["vo-reordered"] else []) ++
+    (if (ss.subs.map (·.priority)).eraseDups.length < ss.subs.length then ["vo-tie"] else [])
+  let (ss1, trans, tags) := visitTrace c timerTick order ss [] []
+  let ss2 := transmit trans ss1
+  vo ++ tags ++ transmitArms trans ss1 ++ cleanupArms ss2.subs ss2.retrans
+
+def ackArms (subs : List Subn) : List ((Nat × Nat) × Msg) → List (Nat × Nat) → List (Nat × Nat) → List String
+  | _, [], _ => []
+  | r, a :: as, seen =>
+    let (r1, x) := ackOne subs r a
+    ((match x with | .good => "ack-G" | .seqUnknown => "ack-U" | .subInvalid => "ack-I") ::
+      (if seen.contains a then ["ack-dup"] else [])) ++ ackArms subs r1 as (a :: seen)
+
+def publishArms (c : Cfg) (ss : Sess) (acks : Option (List (Nat × Nat))) : List String :=
+  if ss.subs.isEmpty then ["pb-nosub"] else
+  let max := ss.subs.length * 2
+  let lenTag := if ss.reqs.length + 1 = max then "pb-len-max-1" else if ss.reqs.length = max then "pb-len-max"
+    else if ss.reqs.length > max then "pb-len-over" else "pb-len-under"
+  let (pre, ptags) : Outcome Sess × List String :=
+    if ss.reqs.length ≥ max then (sessTick c false ss, "pb-pretick" :: tickArms c false ss) else (.ok ss, [])
+  match pre with
+  | .panic => lenTag :: ptags ++ ["panic"]
+  | .ok ss1 =>
+    if ss1.reqs.length ≥ max then lenTag :: ptags ++ ["pb-toomany"]
+    else
+      let atags := match acks with
+        | none => ["ack-none"]
+        | some [] => ["ack-empty"]
+        | some as => ackArms ss1.subs ss1.retrans as []
+      let retrans := match acks with
+        | none => ss1.retrans
+        | some as => (ackAll ss1.subs ss1.retrans as).1
+      lenTag :: ptags ++ ["pb-queued"] ++ atags ++
+        tickArms c false { ss1 with retrans := retrans, reqs := ss1.reqs ++ [{ id := 0, results := none }] }
+
+def finish (d : DState) (ss : Sess) (txt : String) (tags : List String := []) : DState × String :=
   let (ss, rs) := takeResponses ss
-  ({ d with ss := ss }, s!"ok {txt} {showResps rs} {digest ss}")
+  ({ d with ss := ss, sentKeys := d.sentKeys ++ rs.map (fun r => (r.subId, r.msg.seq)) },
+    s!"ok {txt} {showResps rs} {digest ss}" ++ (if tags.isEmpty then "" else " @@ " ++ ",".intercalate tags.eraseDups))
+
+def parseNatList? (s : String) : Option (Option (List Nat)) :=
+  if s = "-" then some none else
+  let inner := String.ofList ((s.toList.drop 1).dropLast)
+  if inner.isEmpty then some (some []) else
+  ((inner.splitOn ",").mapM String.toNat?).map some
+
+def showBools (l : List Bool) : String := String.ofList (l.map fun b => if b then 'G' else 'B')
+
+def modeOf (n : Nat) : Mode := if n = 0 then .disabled else if n = 1 then .sampling else .reporting
 
 def dstep (c : Cfg) (d : DState) (toks : List String) : DState × String :=
   match toks with
   | ["reset", n, mq] =>
     match n.toNat?, mq.toNat? with
-    | some n, some mq => finish { ss := init (mkNodes n), maxQ := mq } (init (mkNodes n)) "-"
+    | some n, some mq =>
+      finish { ss := init (mkNodes n), maxQ := mq, sentKeys := [], ackedKeys := [] } (init (mkNodes n)) "-"
     | _, _ => (d, "bad-op")
   | ["sub", pr, iv, ka, life, en] =>
     match pr.toNat?, iv.toNat?, ka.toNat?, life.toNat?, parseBool? en with
     | some pr, some iv, some ka, some life, some en =>
       let (ss, id) := createSub d.ss pr iv ka life en
-      finish d ss (toString id)
+      finish d ss (toString id) ["sub-created", if en then "sub-enabled" else "sub-disabled"]
     | _, _, _, _, _ => (d, "bad-op")
   | ["delsub", sid] =>
     match sid.toNat? with
-    | some sid => let (ss, b) := deleteSub d.ss sid; finish d ss (boolStr b)
+    | some sid =>
+      let (ss, b) := deleteSub d.ss sid
+      let pending := match getSub d.ss.subs sid with
+        | some s => if s.notifs.isEmpty then [] else ["delsub-with-queued"]
+        | none => []
+      finish d ss (boolStr b) ((if b then "delsub-ok" else "delsub-unknown") :: pending)
     | none => (d, "bad-op")
   | ["pubmode", sid, en] =>
     match sid.toNat?, parseBool? en with
-    | some sid, some en => let (ss, b) := setPublishing d.ss sid en; finish d ss (boolStr b)
+    | some sid, some en =>
+      let (ss, b) := setPublishing d.ss sid en
+      finish d ss (boolStr b) [if b then (if en then "pubmode-enable" else "pubmode-disable") else "pubmode-unknown"]
     | _, _ => (d, "bad-op")
+  | ["modsub", sid, pr, iv, ka, life] =>
+    match sid.toNat?, pr.toNat?, iv.toNat?, ka.toNat?, life.toNat? with
+    | some sid, some pr, some iv, some ka, some life =>
+      let (ss, b) := modifySub d.ss sid pr iv ka life
+      let st := match getSub d.ss.subs sid with
+        | some s => [s!"modsub-state{stateNum s.state}"] ++
+            (if s.priority ≠ pr then ["modsub-priority"] else []) ++
+            (if s.interval ≠ iv then ["modsub-interval"] else []) ++
+            (if s.maxKa ≠ ka then ["modsub-ka"] else []) ++ (if s.maxLife ≠ life then ["modsub-life"] else [])
+        | none => []
+      finish d ss (boolStr b) ((if b then "modsub-ok" else "modsub-unknown") :: st)
+    | _, _, _, _, _ => (d, "bad-op")
+  | ["setpos", sid, st, life, ka, first] =>
+    match sid.toNat?, st.toNat?, life.toNat?, ka.toNat?, parseBool? first with
+    | some sid, some st, some life, some ka, some first =>
+      let state : SState := if st = 0 then .closed else if st = 1 then .creating else if st = 2 then .normal
+        else if st = 3 then .late else .keepAlive
+      let (ss, b) := setPosition d.ss sid state life ka first
+      finish d ss (boolStr b)
+    | _, _, _, _, _ => (d, "bad-op")
+  | ["resend", sid] =>
+    match sid.toNat? with
+    | some sid => let (ss, b) := resendData d.ss sid; finish d ss (boolStr b) [if b then "resend-ok" else "resend-unknown"]
+    | none => (d, "bad-op")
+  | ["transfer", sid] =>
+    match sid.toNat? with
+    | some _ => finish d d.ss "BadSubscriptionIdInvalid" ["transfer-stub"]
+    | none => (d, "bad-op")
   | ["item", sid, h, node, qs, dis, mode, samp] =>
     match sid.toNat?, h.toNat?, node.toNat?, qs.toNat?, parseBool? dis, mode.toNat?,
         (if samp = "-" then some none else samp.toNat?.map some) with
     | some sid, some h, some node, some qs, some dis, some mode, some samp =>
-      let mode := if mode = 0 then Mode.disabled else if mode = 1 then Mode.sampling else Mode.reporting
-      let (ss, r) := createItem d.ss d.maxQ sid h node qs dis mode samp
+      let (ss, r) := createItem d.ss d.maxQ sid h node qs dis (modeOf mode) samp
+      let qtag := if qs = 0 then "item-q0" else if qs = 1 then "item-q1" else if qs = d.maxQ then "item-q-max"
+        else if qs > d.maxQ then "item-q-over" else "item-q-mid"
       match r with
       | .created id => finish d ss (toString id)
-      | .nodeUnknown => finish d ss "BadNodeIdUnknown"
-      | .subInvalid => finish d ss "BadSubscriptionIdInvalid"
+          ["item-ok", qtag, s!"item-mode{min mode 2}", if samp.isNone then "item-interval" else "item-own-sampling"]
+      | .nodeUnknown => finish d ss "BadNodeIdUnknown" ["item-node-unknown"]
+      | .subInvalid => finish d ss "BadSubscriptionIdInvalid" ["item-sub-unknown"]
     | _, _, _, _, _, _, _ => (d, "bad-op")
   | ["delitem", sid, iid] =>
     match sid.toNat?, iid.toNat? with
     | some sid, some iid =>
       let (ss, r) := deleteItem d.ss sid iid
-      finish d ss (match r with
-        | .good => "Good" | .itemInvalid => "BadMonitoredItemIdInvalid" | .subInvalid => "BadSubscriptionIdInvalid")
+      let pending := match getSub d.ss.subs sid with
+        | some s => match s.items.find? (fun i => i.id = iid) with
+          | some it => if it.q.queue.isEmpty then [] else ["delitem-with-queued"]
+          | none => []
+        | none => []
+      match r with
+      | .good => finish d ss "Good" ("delitem-ok" :: pending)
+      | .itemInvalid => finish d ss "BadMonitoredItemIdInvalid" ["delitem-item-unknown"]
+      | .subInvalid => finish d ss "BadSubscriptionIdInvalid" ["delitem-sub-unknown"]
     | _, _ => (d, "bad-op")
+  | ["setmode", sid, iid, mode] =>
+    match sid.toNat?, iid.toNat?, mode.toNat? with
+    | some sid, some iid, some mode =>
+      let (ss, r) := setMode d.ss sid iid (modeOf mode)
+      let old := match getSub d.ss.subs sid with
+        | some s => match s.items.find? (fun i => i.id = iid) with
+          | some it => [s!"setmode-{(match it.mode with | .disabled => 0 | .sampling => 1 | .reporting => 2)}-to-{min mode 2}"] ++
+              (if it.q.queue.isEmpty then [] else ["setmode-with-queued"])
+          | none => []
+        | none => []
+      match r with
+      | .good => finish d ss "Good" ("setmode-ok" :: old)
+      | .itemInvalid => finish d ss "BadMonitoredItemIdInvalid" ["setmode-item-unknown"]
+      | .subInvalid => finish d ss "BadSubscriptionIdInvalid" ["setmode-sub-unknown"]
+      | .panic => (d, "panic")
+    | _, _, _ => (d, "bad-op")
+  | ["moditem", sid, iid, h, qs, dis, samp] =>
+    match sid.toNat?, iid.toNat?, h.toNat?, qs.toNat?, parseBool? dis,
+        (if samp = "-" then some none else samp.toNat?.map some) with
+    | some sid, some iid, some h, some qs, some dis, some samp =>
+      let (ss, r) := modifyItem d.ss d.maxQ sid iid h qs dis samp
+      let old := match getSub d.ss.subs sid with
+        | some s => match s.items.find? (fun i => i.id = iid) with
+          | some it =>
+            let nq := C24.sanitize d.maxQ qs
+            [if it.q.queue.length > nq then "moditem-shrink-drops"
+             else if nq < it.q.size then "moditem-shrink" else if nq > it.q.size then "moditem-grow" else "moditem-same-size"] ++
+            (if it.sampling ≠ samp then ["moditem-sampling"] else []) ++
+            (if it.handle ≠ h then ["moditem-handle"] else []) ++
+            (if it.q.discardOldest ≠ dis then ["moditem-policy"] else [])
+          | none => []
+        | none => []
+      match r with
+      | .good => finish d ss "Good" ("moditem-ok" :: old)
+      | .itemInvalid => finish d ss "BadMonitoredItemIdInvalid" ["moditem-item-unknown"]
+      | .subInvalid => finish d ss "BadSubscriptionIdInvalid" ["moditem-sub-unknown"]
+      | .panic => (d, "panic")
+    | _, _, _, _, _, _ => (d, "bad-op")
+  | ["trigger", sid, iid, add, rem] =>
+    match sid.toNat?, iid.toNat?, parseNatList? add, parseNatList? rem with
+    | some sid, some iid, some add, some rem =>
+      if (add.getD []).isEmpty ∧ (rem.getD []).isEmpty then finish d d.ss "BadNothingToDo" ["trigger-nothing"]
+      else
+        let (ss, r) := setTriggering d.ss sid iid (add.getD []) (rem.getD [])
+        match r with
+        | none => finish d ss "BadSubscriptionIdInvalid" ["trigger-sub-unknown"]
+        | some none => finish d ss "BadMonitoredItemIdInvalid" ["trigger-item-unknown"]
+        | some (some (a, r)) =>
+          finish d ss ((if add.isSome then showBools a else "-") ++ "/" ++ (if rem.isSome then showBools r else "-"))
+            (["trigger-ok"] ++ (if a.contains true then ["trigger-add-good"] else []) ++
+             (if a.contains false then ["trigger-add-bad"] else []) ++
+             (if r.contains true then ["trigger-remove-good"] else []) ++
+             (if r.contains false then ["trigger-remove-bad"] else []))
+    | _, _, _, _ => (d, "bad-op")
   | ["write", node, v] =>
     match node.toNat?, v.toNat? with
     | some node, some v => finish d (write d.ss node v) "-"
@@ -129,28 +418,38 @@ def dstep (c : Cfg) (d : DState) (toks : List String) : DState × String :=
   | ["tick", dt] =>
     match dt.toNat? with
     | some dt =>
+      let tags := (if dt = 0 then "dt0" else if dt = 1 then "dt1" else "dt>1") ::
+        tickArms c true { d.ss with now := d.ss.now + dt }
       match timer c d.ss dt with
-      | .ok ss => finish d ss "-"
-      | .panic => (d, "panic")
+      | .ok ss => finish d ss "-" tags
+      | .panic => (d, "panic @@ " ++ ",".intercalate tags.eraseDups)
     | none => (d, "bad-op")
   | ["publish", rid, acks] =>
     match rid.toNat?, parseAcks? acks with
     | some rid, some acks =>
+      let tags := publishArms c d.ss acks
       match publish c d.ss rid acks with
-      | .ok (ss, r) => finish d ss (match r with
-        | .queued => "queued" | .noSubscription => "BadNoSubscription" | .tooMany => "BadTooManyPublishRequests")
-      | .panic => (d, "panic")
+      | .ok (ss, r) =>
+        let d := if r = .queued then { d with ackedKeys := d.ackedKeys ++ acks.getD [] } else d
+        finish d ss (match r with
+          | .queued => "queued" | .noSubscription => "BadNoSubscription" | .tooMany => "BadTooManyPublishRequests") tags
+      | .panic => (d, "panic @@ " ++ ",".intercalate tags.eraseDups)
     | _, _ => (d, "bad-op")
   | ["republish", sid, seq] =>
     match sid.toNat?, seq.toNat? with
     | some sid, some seq =>
       let (ss, r) := republish d.ss sid seq
-      finish d ss (match r with
-        | .ok m => showMsg m | .notAvailable => "BadMessageNotAvailable" | .subInvalid => "BadSubscriptionIdInvalid")
+      let k := (sid, seq)
+      match r with
+      | .ok m => finish d ss (showMsg m) ["rp-ok"]
+      | .notAvailable => finish d ss "BadMessageNotAvailable"
+          [if !d.sentKeys.contains k then "rp-never-sent" else if d.ackedKeys.contains k then "rp-acked" else "rp-evicted"]
+      | .subInvalid => finish d ss "BadSubscriptionIdInvalid"
+          [if d.sentKeys.any (fun x => x.1 = sid) then "rp-sub-gone" else "rp-sub-unknown"]
     | _, _ => (d, "bad-op")
   | _ => (d, "bad-op")
 
 def mkDriver (c : Cfg) : Driver :=
-  { σ := DState, init := { ss := init [], maxQ := 10 }, step := dstep c }
+  { σ := DState, init := { ss := init [], maxQ := 10, sentKeys := [], ackedKeys := [] }, step := dstep c }
 
 end OpcuaVerif.SubM
